@@ -741,7 +741,7 @@ func (c *control) dirProc(colon, at bool, params []any) {
 		if c.argPos < len(c.args) {
 			var ok bool
 			c.needArg()
-			if args, ok = c.args[c.argPos].(slip.List); !ok {
+			if args, ok = c.args[c.argPos].(slip.List); !ok && c.args[c.argPos] != nil { // nil is the empty list
 				slip.ErrorPanic(c.scope, 0, "recursive processing directive expected an argument list at %d of %q", c.pos, c.str)
 			}
 		}
@@ -1341,6 +1341,9 @@ func (c *control) dirAS(colon, at bool, params []any, p *slip.Printer) {
 		arg = c.args[c.argPos]
 		c.argPos++
 	}
+	if list, ok := arg.(slip.List); ok && len(list) == 0 {
+		arg = nil // an empty list is nil
+	}
 	switch ta := arg.(type) {
 	case nil:
 		if colon {
@@ -1504,6 +1507,9 @@ func (c *control) dirCond(colon, at bool, params []any) {
 			arg = c.args[c.argPos]
 			c.argPos++
 		}
+	}
+	if list, ok := arg.(slip.List); ok && len(list) == 0 {
+		arg = nil // an empty list is nil, the false value
 	}
 	strs, def, pos := c.scanCond(c.str, c.pos)
 	switch {
